@@ -8,6 +8,7 @@ Ties        : T  dtype-transfer expressions regenerated from /repo by lib/py2coq
               T  translator self-check: every reachable kernel of cpu_ops / conv_tools is run for real (through the public
                  ops, the module attributes temporarily wrapped by recorders) and its observed result dtype / kind must be
                  a member of `deval` of the generated expression on the abstracted arguments (compared inside Coq)
+              K  stateful layers: real BatchNorm histories (k training forwards then eval) vs the generated state machine
               K  every catalogued public call (ops with tensor / Python-scalar operands, layers train+eval, losses x
                  reductions, Sequential) x {float32, float64} x upstream gradient of either dtype (and the default one):
                  observed result dtype == the single dtype predicted by the generated definitions; observed .grad
@@ -350,6 +351,75 @@ def agreement(ctx, info):
                     'float32 result within 1e-4 (relative) of the float64 result', bd)
 
 
+def histories(ctx, info, with_model):
+    """stateful layers: k training forwards then an eval forward; oracle on every step + comparison with the generated
+    state machine inside Coq"""
+    from lib import c10_layers as L
+    impl = _impl()
+    hs = L.history_cases()
+    smeta = info.get('stateful') if info else None
+    runs = []
+    for i, h in enumerate(hs):
+        try:
+            rec = L.run_history(impl, smeta, h, ctx.seed + 17 * i)
+        except Exception as ex:
+            rec = {'steps': [], 'problems': [('raises', 'the history completes', repr(ex)[:300])]}
+        runs.append((h, rec))
+    fails = [(h, rec) for h, rec in runs if rec['problems']]
+    ctx.extra['stateful_histories'] = {'histories': len(runs), 'forward_calls': sum(len(r['steps']) for _, r in runs), 'failing': len(fails)}
+    for h, rec in sorted(fails, key=lambda t: (t[0]['k'], len(t[0]['shape'])))[:2]:
+        p = rec['problems'][0]
+        ctx.witness("nn.%s" % h['cls'], "stateful-dtype-drift", {'history': h}, {p[0]: p[1]}, {'observed': p[2], 'all_problems': [q[0] for q in rec['problems']][:6]},
+                    note="k training forwards then an eval forward on inputs of the layer's dtype: outputs, 0-d reductions, running statistics, counter, gradients")
+    if not (with_model and smeta):
+        return fails
+    by = {m['class']: m for m in smeta}
+    cases = []
+    for h, rec in runs:
+        if 'ctor' not in rec or not rec['steps'] or any(p[0] == 'raises' for p in rec['problems']):
+            continue
+        m = by[h['cls']]
+        steps = "; ".join("(%s, %s, %s, %s)" % (cb(st['training']), av(st['x']), av(st['out']), av(st['state'])) for st in rec['steps'])
+        cases.append(((h, rec), "((mkSL \"\" [] %s %s, %s, %s), [%s])" % (m['init'], m['step'], clist([av(a) for a in rec['ctor']]), av(rec['init_state']), steps)))
+    seen, uniq = set(), []
+    for hr, txt in cases:
+        if txt not in seen:
+            seen.add(txt); uniq.append((hr, txt))
+    txt = HEADER + OBS_MATCH + """
+Fixpoint check_hist (r : slrow) (h : list (bool * absval * absval * absval)) (S : list absval) : bool :=
+  match h with
+  | [] => true
+  | (tr, x, o, st) :: t =>
+      let outs := sl_outs gen_cfg r x tr S in
+      negb (is_nil outs) && forallb (obs_match o) outs &&           (* the predicted output set is exactly the observed dtype *)
+      existsb (obs_match st) (sl_next gen_cfg r x tr S) &&            (* the observed state is a predicted one *)
+      check_hist r t (sl_next gen_cfg r x tr S)
+  end.
+Definition model (c : slrow * list absval * absval) : (slrow * list absval * absval) := c.
+Definition agree (c : slrow * list absval * absval) (h : list (bool * absval * absval * absval)) : bool :=
+  let '(r, ctor, st0) := c in
+  let S0 := deval0 gen_cfg ctor (sl_init r) in
+  existsb (obs_match st0) S0 && check_hist r h S0.
+Definition cases : list ((slrow * list absval * absval) * list (bool * absval * absval * absval)) :=
+ [%s].
+Eval vm_compute in (mismatches model agree cases).
+""" % ";\n ".join(t for _, t in uniq)
+    ok, out = ctx.coq_eval("histories", txt)
+    lists = parse_natlist(out)
+    mism = []
+    if not ok or len(lists) != 1:
+        mism.append({"file": "histories", "error": out[-500:]})
+    else:
+        for i in lists[0]:
+            h, rec = uniq[i][0]
+            mism.append({"history": h, "observed_outputs": [st['out_dtype'] for st in rec['steps']], "observed_running_stats": [st['stats'] for st in rec['steps']]})
+    ctx.tie("stateful layers: generated state machine vs real histories", "correspondence", len(uniq), sum(1 for (h, _), _ in uniq if h['k'] >= 1), mism, exhaustive=True,
+            note="BatchNorm1d/2d x momentum {0.1, None} x track_running_stats x affine x layer dtype {default, float32, float64} x k in {0..3} training forwards "
+                 "then an eval forward: every output dtype must be the single predicted one, every observed state (all attributes) a predicted state; "
+                 "non-trivial = at least one training forward before the eval forward")
+    return fails
+
+
 def scalar_values(ctx):
     """oracle, value level: float64 (float32) tensors combined with non-dyadic Python scalars give bit-exactly the NumPy
     float64 (float32) result - the scalar is not rounded through float32 - and so do the gradients"""
@@ -419,16 +489,15 @@ def run(ctx):
     obs_list, recdata = run_all(ctx, info)
     ctx.log("ran %d public calls" % len(obs_list))
     sfails = scalar_values(ctx)
+    gen_ok = info is not None and ok_build
+    if info is not None and not ok_build:
+        # the generated file may still compile although a theorem fails: try the correspondences anyway
+        gen_ok, _ = common.coq_make(["Base/Cmp.vo", "IR/Dtype.vo", "Gen/GenDtype.vo"], timeout=900)
+    hfails = histories(ctx, info, gen_ok)
     found = oracle(ctx, obs_list)
-    if info is not None and ok_build:
+    if gen_ok:
         selfcheck(ctx, info, recdata)
         kcheck(ctx, info, obs_list)
-    elif info is not None:
-        # the generated file may still compile although a theorem fails: try the correspondences anyway
-        okg, _ = common.coq_make(["Base/Cmp.vo", "IR/Dtype.vo", "Gen/GenDtype.vo"], timeout=900)
-        if okg:
-            selfcheck(ctx, info, recdata)
-            kcheck(ctx, info, obs_list)
     st = [o for k, c, o in obs_list if k == 'case' and o.get('running_stats_dtypes')]
     prom = sorted(set((o['case'], str(o['dtype']), tuple(o['running_stats_dtypes'])) for o in st if isinstance(o['dtype'], str) and any(d != 'float32' for d in o['running_stats_dtypes'])))
     if prom:
@@ -452,6 +521,12 @@ def replay(ctx, data):
     impl = _impl()
     np, sg = impl.np, impl.synapgrad
     inp = data["input"]
+    if 'history' in inp:
+        rec = L.run_history(impl, None, inp['history'], ctx.seed)
+        print("history %s ->" % json.dumps(inp['history']))
+        print("  outputs:", [(("train" if st['training'] else "eval"), st['out_dtype'], st['stats']) for st in rec['steps']])
+        print("  oracle:", rec['problems'] if rec['problems'] else "property holds on this history")
+        return 1 if rec['problems'] else 0
     if 'scalar_op' in inp:
         r = L.scalar_value_check(impl, inp['scalar_op'], inp['dtype'], inp['scalar'], inp['x'])
         print("%s with x = %s (%s), s = %r ->" % (inp['scalar_op'], inp['x'], inp['dtype'], inp['scalar']),
